@@ -142,7 +142,7 @@ theorem atomFull_good : GoodAtom env0 atomFull := by
   have h2 : setNames.contains atomFull.name = false := by decide
   have h3 : versionLikeNames.contains atomFull.name = true := by decide
   simp only [h1, if_false, h2, Bool.false_eq_true, h3, if_true]
-  refine Or.inr ⟨by unfold Atom.Coherent; decide, ⟨by decide, ?_, ?_⟩, fun h => absurd h (by decide), fun h => absurd h (by decide)⟩
+  refine Or.inr ⟨by unfold Atom.Coherent; decide, ⟨by decide, ?_, ?_⟩, fun h => absurd h (by decide)⟩
   · exact Spec.fromClause_textInv ⟨.ge, { release := [3, 8, 1] }, false⟩ _ (by simp [fromClause])
   · apply Spec.boundsIn_of_allVers
     simp [Spec.AllVers, Range.AllVers, atomFull, Spec.FinalV, Ver.isFinal]
@@ -166,7 +166,7 @@ theorem atomPvGt_good : GoodAtom env0 atomPvGt := by
   have h2 : setNames.contains atomPvGt.name = false := by decide
   have h3 : versionLikeNames.contains atomPvGt.name = true := by decide
   simp only [h1, if_false, h2, Bool.false_eq_true, h3, if_true]
-  refine Or.inr ⟨by unfold Atom.Coherent; decide, ?_, ?_, ?_⟩
+  refine Or.inr ⟨by unfold Atom.Coherent; decide, ?_, ?_⟩
   · exact nice_of_clause ⟨.gt, { release := [3, 8] }, false⟩ _ (by simp [fromClause]) ⟨rfl, rfl, by simp⟩
   · intro _ ns hns
     have hnorm : normalizePythonVersion atomPvGt = some (.ver ((Spec.range {}).and normGe39)) := by decide
@@ -175,12 +175,30 @@ theorem atomPvGt_good : GoodAtom env0 atomPvGt := by
     refine ⟨by decide, ?_, (by decide : versionLikeNames.contains "python_full_version" = true)⟩
     exact C06.nice_and _ _ nice_anyRange
       (nice_of_clause ⟨.ge, { release := [3, 9] }, false⟩ normGe39 (by simp [fromClause, normGe39]) ⟨rfl, rfl, by simp⟩)
-  · intro _
-    apply Spec.boundsIn_of_allVers
-    simp [Spec.AllVers, Range.AllVers, atomPvGt, Pv2, Spec.FinalV, Ver.isFinal]
-    intro i hi
-    match i, hi with
-    | i + 2, _ => simp
+
+/-- `python_version >= "3.8.1"` as the parser builds it: three significant components.  Before the `fix:`
+    it was normalised to the python_full_version constraint `>=3.8.1` (defect D22) and was outside the
+    Good atoms (the proof forced two-component bounds on python_version views); now
+    `_normalize_python_version_specifier` returns None for it, it is never merged with a
+    python_full_version atom, and it is a Good atom like any other -/
+def atomPv3 : Atom :=
+  ⟨"python_version", .ge, "3.8.1", false,
+   .ver (.range { min := some { release := [3, 8, 1] }, incMin := true, text := some ⟨.ge, { release := [3, 8, 1] }, false⟩ })⟩
+
+theorem atomPv3_good : GoodAtom env0 atomPv3 := by
+  refine ⟨by unfold Atom.WF; decide, ?_⟩
+  have h1 : atomPv3.name ≠ "extra" := by decide
+  have h2 : setNames.contains atomPv3.name = false := by decide
+  have h3 : versionLikeNames.contains atomPv3.name = true := by decide
+  simp only [h1, if_false, h2, Bool.false_eq_true, h3, if_true]
+  refine Or.inr ⟨by unfold Atom.Coherent; decide, ?_, ?_⟩
+  · exact nice_of_clause ⟨.ge, { release := [3, 8, 1] }, false⟩ _ (by simp [fromClause]) ⟨rfl, rfl, by simp⟩
+  · intro _ ns hns
+    have hnorm : normalizePythonVersion atomPv3 = none := by decide
+    rw [hnorm] at hns; cases hns
+
+/-- and it is not merged with a python_full_version atom -/
+example : mergeSingle atomPv3 atomFull true = none := by decide
 
 /-- `"3.8" ~= python_version` as the parser builds it (literal on the left, `~=` has no mirror image): its
     specifier view `~=3.8` is NOT what it evaluates to, so after the `fix:` it is never merged
